@@ -57,6 +57,8 @@ WHITELIST = [
          chain=dict(var="num_points", inputs=["bitstream_version"])),
     dict(cls="MeshSequentialEncoder", fn="EncodeConnectivity", suffix="_indexWidth",
          chain=dict(var="num_points", inputs=["num_points"])),
+    dict(cls=None, fn="ComputeParallelogramPrediction", suffix="_component",
+         slice=dict(first_decl="in_data_next_off", count=5)),
     dict(cls="OctahedronToolBox", fn="IsInDiamond"),
     dict(cls="OctahedronToolBox", fn="InvertDiamond"),
     dict(cls="OctahedronToolBox", fn="ModMax"),
@@ -102,6 +104,8 @@ TU_TEXT = """\
 #include "draco/core/varint_encoding.h"
 #include "draco/core/varint_decoding.h"
 #include "draco/core/draco_types.cc"
+#include "draco/compression/attributes/prediction_schemes/mesh_prediction_scheme_parallelogram_shared.h"
+#include "draco/mesh/corner_table.h"
 #include "draco/compression/mesh/mesh_sequential_decoder.cc"
 #include "draco/compression/mesh/mesh_sequential_encoder.cc"
 static_assert(std::is_same<int8_t, signed char>::value && std::is_same<uint8_t, unsigned char>::value, "");
@@ -114,6 +118,8 @@ namespace draco {
 template uint32_t ConvertSignedIntToSymbol<int32_t>(int32_t);
 template int32_t ConvertSymbolToSignedInt<uint32_t>(uint32_t);
 template int32_t AddAsUnsigned<int32_t>(int32_t, int32_t);
+template bool ComputeParallelogramPrediction<CornerTable, int32_t>(int, const CornerIndex, const CornerTable *,
+    const std::vector<int32_t> &, const int32_t *, int, int32_t *);
 template class RAnsSymbolEncoder<12>;
 template class RAnsDecoder<12>;
 template bool DecodeVarint<uint32_t>(uint32_t *, DecoderBuffer *);
@@ -706,6 +712,7 @@ class FuncTranslator:
         self.chain = False
         self.abs_inputs = {}
         self.slice_free = {}
+        self.slice_free_ptrs = set()
         self.cls = self.ix.class_of(decl)
         self.need_input = set()     # out locations that must also be inputs
         self.body = [c for c in decl.get("inner", []) if c.get("kind") == "CompoundStmt"][0]
@@ -773,6 +780,7 @@ class FuncTranslator:
                     uses(c)
         for st in self.slice:
             uses(st)
+        self.slice_free_ptrs = {vid for vid, (nm, t) in self.slice_free.items() if t.kind == "ptr"}
         wrapper = {"kind": "CompoundStmt", "inner": self.slice}
         self.body = wrapper
         self.parms = []
@@ -1045,6 +1053,17 @@ class FuncTranslator:
                 self.abs_names[nm] = (ln, CT(t.kind, t.signed, t.bits))
                 info.params.append((ln, t.lean(), ("val", -1)))
         if self.slice is not None or self.chain:
+            self.wide_ptrs = set()
+            for vid, (nm, t) in list(self.slice_free.items()):
+                if t.kind == "ptr" and t.to.kind == "int":
+                    self.wide_ptrs.add(vid)
+                    if t.to.const:
+                        ln = self._alloc(nm)
+                        ctx.bptr["v:" + vid] = ("src:" + ln, "0")
+                        info.params.append((ln, "Int → Int", ("src", -1)))
+                    else:
+                        ctx.bptr["v:" + vid] = ("p:" + vid, "0")
+                    del self.slice_free[vid]
             for vid, (nm, t) in self.slice_free.items():
                 if t.kind not in ("int", "bool"):
                     self.fail(f"slice: free variable `{nm}` of type {t!r}")
@@ -1166,7 +1185,7 @@ class FuncTranslator:
             k = x.get("kind")
             if k == "BinaryOperator" and x.get("opcode") == "=":
                 l = _strip(x["inner"][0])
-                if l.get("kind") == "ArraySubscriptExpr" and self._is_bptr_type(node_type(l["inner"][0])):
+                if l.get("kind") == "ArraySubscriptExpr" and (self._is_bptr_type(node_type(l["inner"][0])) or self._ptr_is_free_nonconst(l["inner"][0])):
                     return True
                 if l.get("kind") == "UnaryOperator" and l.get("opcode") == "*" and self._is_bptr_type(node_type(l["inner"][0])):
                     return True
@@ -1189,6 +1208,24 @@ class FuncTranslator:
     @staticmethod
     def _is_bptr_type(t):
         return t.kind == "ptr" and ((t.to.kind == "int" and t.to.bits == 8) or t.to.kind == "void")
+
+    def _ptr_is_free_nonconst(self, e):
+        b = _strip(e)
+        if b.get("kind") != "DeclRefExpr" or self.slice is None:
+            return False
+        t = node_type(b)
+        return t.kind == "ptr" and t.to.kind == "int" and not t.to.const and b["referencedDecl"]["id"] in self.slice_free_ptrs
+
+    def _is_mem_ptr(self, e):
+        """a pointer expression that is modelled as a source / write log: byte pointers, and (in slices) the integer
+        array pointers that are free variables of the slice"""
+        t = node_type(e)
+        if self._is_bptr_type(t):
+            return True
+        b = _strip(e)
+        while b.get("kind") == "BinaryOperator" and b.get("opcode") in ("+", "-"):
+            b = _strip(b["inner"][0])
+        return b.get("kind") == "DeclRefExpr" and b["referencedDecl"]["id"] in getattr(self, "wide_ptrs", ())
 
     def _assigned_fields(self, n):
         out = set()
@@ -1671,7 +1708,7 @@ class FuncTranslator:
         if kind == "BinaryOperator" and s.get("opcode") == "=" and not self.pointwise:
             l0 = _strip(s["inner"][0])
             tgt = None
-            if l0.get("kind") == "ArraySubscriptExpr" and self._is_bptr_type(node_type(l0["inner"][0])):
+            if l0.get("kind") == "ArraySubscriptExpr" and self._is_mem_ptr(l0["inner"][0]):
                 b, o = self.ev_bptr(l0["inner"][0], ctx)
                 iv, it = self.ev(l0["inner"][1], ctx)
                 tgt = (b, iv if o == "0" else f"({o} + {iv})")
@@ -1768,7 +1805,7 @@ class FuncTranslator:
                     return ctx.bptr[key]
                 return (f"g:{obj['referencedDecl']['id']}:{n['name']}", "0")
             self.fail("pointer field", n)
-        if k == "BinaryOperator" and n.get("opcode") in ("+", "-") and self._is_bptr_type(node_type(n["inner"][0])):
+        if k == "BinaryOperator" and n.get("opcode") in ("+", "-") and self._is_mem_ptr(n["inner"][0]):
             b, o = self.ev_bptr(n["inner"][0], ctx)
             v, vt = self.ev(n["inner"][1], ctx)
             if vt.kind != "int":
@@ -2182,7 +2219,7 @@ class FuncTranslator:
         if k == "MemberExpr":
             loc = self.lvalue(n, ctx)
             return self.read(ctx, loc, n), ctx.types[loc]
-        if k == "ArraySubscriptExpr" and not self.pointwise and self._is_bptr_type(node_type(n["inner"][0])):
+        if k == "ArraySubscriptExpr" and not self.pointwise and self._is_mem_ptr(n["inner"][0]):
             b, o = self.ev_bptr(n["inner"][0], ctx)
             if not b.startswith("src:"):
                 self.fail("read through a pointer that is written through", n)
